@@ -88,6 +88,13 @@ func findFunc(f *ast.File, recv, name string) *ast.FuncDecl {
 			if st, ok := t.(*ast.StarExpr); ok {
 				t = st.X
 			}
+			// generic receivers: Merge[T], Pool[K, V]
+			if ix, ok := t.(*ast.IndexExpr); ok {
+				t = ix.X
+			}
+			if ix, ok := t.(*ast.IndexListExpr); ok {
+				t = ix.X
+			}
 			if id, ok := t.(*ast.Ident); ok {
 				r = id.Name
 			}
